@@ -205,6 +205,13 @@ class kFlowDecomp(pathmodel.AbstractPathModelDAG):
         ):
             utils.logger.error(f"{__name__}: subpath_constraints must be a list of lists of edges, where each edge is a tuple of two nodes.")
             raise ValueError("subpath_constraints must be a list of lists of edges, where each edge is a tuple of two nodes.")
+        # ... and so is the presence of their edges in the graph (the greedy check reads the lengths of the constraint edges)
+        if self.subpath_constraints is not None:
+            for constraint in self.subpath_constraints:
+                for (u, v) in constraint:
+                    if not self.G.has_edge(u, v):
+                        utils.logger.error(f"{__name__}: Subpath constraint contains the edge ({u}, {v}), which is not in the graph.")
+                        raise ValueError(f"Subpath constraint contains the edge ({u}, {v}), which is not in the graph.")
         # We can apply the greedy algorithm only if 
         # - there are no edges to ignore (in the original input graph), and 
         # - the graph satisfies flow conservation
